@@ -462,6 +462,84 @@ func initLib() {
 	bigUn("Set", func(x Term) Term { return x })
 	bigUn("Neg", func(x Term) Term { return mk("(- "+x.S+")", sortInt) })
 	bigUn("Abs", func(x Term) Term { return mk(fmt.Sprintf("(ite (>= %s 0) %s (- %s))", x.S, x.S, x.S), sortInt) })
+	// ---- math/big.Rat (exact rationals as Real)
+	ratPfx := "(*math/big.Rat)."
+	ratSet := func(name string, f func(vc *VC, st *State, a []Val) Term) {
+		libTable[ratPfx+name] = func(vc *VC, fr *Frame, st *State, a []Val, at []types.Type, rt types.Type, pos token.Pos) Val {
+			vc.usedLib("big.Rat." + name)
+			vc.nilChecks(fr, st, pos, a...)
+			vc.storePlace(st, a[0].P, vc.define("rat", f(vc, st, a)))
+			return a[0]
+		}
+	}
+	toReal := func(vc *VC, t Term) Term {
+		if t.T.K == SReal {
+			return t
+		}
+		if t.T.K == SBV {
+			return mk("(to_real (bv2nat "+t.S+"))", sortReal)
+		}
+		return mk("(to_real "+t.S+")", sortReal)
+	}
+	ratSet("SetInt64", func(vc *VC, st *State, a []Val) Term { return toReal(vc, a[1].T) })
+	ratSet("SetUint64", func(vc *VC, st *State, a []Val) Term { return toReal(vc, a[1].T) })
+	ratSet("SetInt", func(vc *VC, st *State, a []Val) Term { return toReal(vc, vc.ld(st, a[1])) })
+	ratSet("SetFloat64", func(vc *VC, st *State, a []Val) Term { return toReal(vc, a[1].T) })
+	ratSet("Set", func(vc *VC, st *State, a []Val) Term { return vc.ld(st, a[1]) })
+	ratSet("Add", func(vc *VC, st *State, a []Val) Term { return mk(app("+", vc.ld(st, a[1]), vc.ld(st, a[2])), sortReal) })
+	ratSet("Sub", func(vc *VC, st *State, a []Val) Term { return mk(app("-", vc.ld(st, a[1]), vc.ld(st, a[2])), sortReal) })
+	ratSet("Mul", func(vc *VC, st *State, a []Val) Term { return mk(app("*", vc.ld(st, a[1]), vc.ld(st, a[2])), sortReal) })
+	libTable[ratPfx+"Quo"] = func(vc *VC, fr *Frame, st *State, a []Val, at []types.Type, rt types.Type, pos token.Pos) Val {
+		vc.usedLib("big.Rat.Quo")
+		vc.nilChecks(fr, st, pos, a...)
+		x, y := vc.ld(st, a[1]), vc.ld(st, a[2])
+		vc.oblige(st, fr, "safe.div", "big.Rat.Quo", tNot(tEq(y, mk("0.0", sortReal))), "big.Rat division by zero", pos)
+		vc.storePlace(st, a[0].P, vc.define("rat", mk(app("/", x, y), sortReal)))
+		return a[0]
+	}
+	libTable[ratPfx+"Cmp"] = func(vc *VC, fr *Frame, st *State, a []Val, at []types.Type, rt types.Type, pos token.Pos) Val {
+		vc.usedLib("big.Rat.Cmp")
+		vc.nilChecks(fr, st, pos, a...)
+		x, y := vc.ld(st, a[0]), vc.ld(st, a[1])
+		return Val{T: tIte(mk(app("<", x, y), sortBool), vc.intConst(newBig(-1), 64), tIte(mk(app(">", x, y), sortBool), vc.intConst(newBig(1), 64), vc.intConst(newBig(0), 64)))}
+	}
+	libTable[ratPfx+"Sign"] = func(vc *VC, fr *Frame, st *State, a []Val, at []types.Type, rt types.Type, pos token.Pos) Val {
+		vc.usedLib("big.Rat.Sign")
+		vc.nilChecks(fr, st, pos, a...)
+		x := vc.ld(st, a[0])
+		return Val{T: tIte(mk("(< "+x.S+" 0.0)", sortBool), vc.intConst(newBig(-1), 64), tIte(mk("(> "+x.S+" 0.0)", sortBool), vc.intConst(newBig(1), 64), vc.intConst(newBig(0), 64)))}
+	}
+	// Float64: nearest float64; modelled as a value within relative error 2^-53 (same sign, exact for 0)
+	libTable[ratPfx+"Float64"] = func(vc *VC, fr *Frame, st *State, a []Val, at []types.Type, rt types.Type, pos token.Pos) Val {
+		vc.usedLib("big.Rat.Float64 (relative error <= 2^-53 envelope)")
+		vc.nilChecks(fr, st, pos, a...)
+		x := vc.ld(st, a[0])
+		if vc.mode != ModeMath {
+			return vc.freshVal(st, "f64", rt)
+		}
+		r := vc.declFresh("f64", sortReal)
+		eps := "(/ 1.0 9007199254740992.0)"
+		vc.assume(st, mk(fmt.Sprintf("(and (=> (>= %s 0.0) (and (<= (* %s (- 1.0 %s)) %s) (<= %s (* %s (+ 1.0 %s))))) (=> (< %s 0.0) (and (<= (* %s (+ 1.0 %s)) %s) (<= %s (* %s (- 1.0 %s))))))",
+			x.S, x.S, eps, r.S, r.S, x.S, eps, x.S, x.S, eps, r.S, r.S, x.S, eps), sortBool))
+		ex := vc.declFresh("f64exact", sortBool)
+		vc.assume(st, tImp(ex, tEq(r, x)))
+		return Val{Tup: []Val{{T: r}, {T: ex}}}
+	}
+	libTable["math.Floor"] = func(vc *VC, fr *Frame, st *State, a []Val, at []types.Type, rt types.Type, pos token.Pos) Val {
+		vc.usedLib("math.Floor")
+		if vc.mode != ModeMath {
+			return vc.freshVal(st, "floor", rt)
+		}
+		return Val{T: mk("(to_real (to_int "+a[0].T.S+"))", sortReal)}
+	}
+	libTable["math.Ceil"] = func(vc *VC, fr *Frame, st *State, a []Val, at []types.Type, rt types.Type, pos token.Pos) Val {
+		vc.usedLib("math.Ceil")
+		if vc.mode != ModeMath {
+			return vc.freshVal(st, "ceil", rt)
+		}
+		return Val{T: mk("(- (to_real (to_int (- "+a[0].T.S+"))))", sortReal)}
+	}
+
 	libTable[bigPfx+"Sign"] = func(vc *VC, fr *Frame, st *State, a []Val, at []types.Type, rt types.Type, pos token.Pos) Val {
 		vc.usedLib("big.Int.Sign")
 		vc.nilChecks(fr, st, pos, a[0])
